@@ -224,3 +224,49 @@ Proof.
   unfold mo_okb, mo_ok. destruct (is_redirect r), (is_csp r), (r_modifier r); cbn; split; intros H; auto;
     try discriminate; destruct H as [H|[H|H]]; discriminate.
 Qed.
+
+(* ------------------------------------------------------------------ class/id query, end to end *)
+Lemma mem_str_perm x l l' : Permutation l l' -> mem_str x l = mem_str x l'.
+Proof.
+  intros P. destruct (mem_str x l) eqn:A, (mem_str x l') eqn:B; try reflexivity.
+  - apply mem_str_In in A. apply (Permutation_in _ P) in A. apply mem_str_In in A. congruence.
+  - apply mem_str_In in B. apply (Permutation_in _ (Permutation_sym P)) in B. apply mem_str_In in B. congruence.
+Qed.
+
+Lemma hidden_for_equiv p s s' m m' exc name :
+  Permutation s s' -> Permutation m m' -> NoDup (map fst m) ->
+  hidden_for p s m exc name = hidden_for p s' m' exc name.
+Proof.
+  intros PS PM ND. unfold hidden_for. rewrite (mem_str_perm name _ _ PS), (gets_perm name _ _ PM ND). reflexivity.
+Qed.
+
+(* equivalent cosmetic states give the same answer, as a list, to every class/id query *)
+Theorem class_id_query_equiv a b classes ids exc : cosmetic_equiv a b ->
+  NoDup (map fst (c_complex_class a)) -> NoDup (map fst (c_complex_id a)) ->
+  hidden_class_id_selectors a classes ids exc = hidden_class_id_selectors b classes ids exc.
+Proof.
+  intros [P1 P2 P3 P4 _ _] N3 N4. unfold hidden_class_id_selectors. f_equal.
+  - induction classes as [|x l IH]; cbn; [reflexivity|]. rewrite IH.
+    rewrite (hidden_for_equiv DOT _ _ _ _ exc x P1 P3 N3). reflexivity.
+  - induction ids as [|x l IH]; cbn; [reflexivity|]. rewrite IH.
+    rewrite (hidden_for_equiv HASH _ _ _ _ exc x P2 P4 N4). reflexivity.
+Qed.
+
+(* hence: the class/id query on the reloaded engine returns what it returned on the original
+   (no hypothesis about removeparam rules or permissions is needed for this query) *)
+Theorem class_id_query_roundtrip as_css b c classes ids exc :
+  hostdb_wf (c_specific c) -> NoDup (map fst (c_complex_class c)) -> NoDup (map fst (c_complex_id c)) ->
+  hidden_class_id_selectors (from_wire_cosmetic (to_wire as_css b c)) classes ids exc =
+  hidden_class_id_selectors c classes ids exc.
+Proof.
+  intros HW N3 N4. unfold hidden_class_id_selectors.
+  cbn [from_wire_cosmetic c_simple_class c_simple_id c_complex_class c_complex_id
+       wi_simple_class wi_simple_id wi_complex_class wi_complex_id to_wire].
+  f_equal.
+  - induction classes as [|x l IH]; cbn; [reflexivity|]. rewrite IH. f_equal.
+    apply hidden_for_equiv; [apply sort_set_permutation|apply sort_smap_permutation|].
+    eapply Permutation_NoDup; [|exact N3]. apply Permutation_map. symmetry. apply sort_smap_permutation.
+  - induction ids as [|x l IH]; cbn; [reflexivity|]. rewrite IH. f_equal.
+    apply hidden_for_equiv; [apply sort_set_permutation|apply sort_smap_permutation|].
+    eapply Permutation_NoDup; [|exact N4]. apply Permutation_map. symmetry. apply sort_smap_permutation.
+Qed.
